@@ -217,15 +217,19 @@ func (r *Runner) Report(check string, c any, f *Failure) bool {
 	}
 	rf := ReplayFile{Property: r.ID, Check: check, Case: raw, Failure: f}
 	data, _ := json.MarshalIndent(rf, "", " ")
+	// one replay file per failure signature: the smallest case seen
+	if prev, seen := r.violations[f.Sig]; seen {
+		if st, err := os.Stat(prev); err == nil && st.Size() <= int64(len(data)) {
+			return true
+		}
+		os.Remove(prev)
+	}
 	sum := sha256.Sum256(raw)
 	name := fmt.Sprintf("%s-%s.json", sanitize(f.Sig), hex.EncodeToString(sum[:6]))
 	os.MkdirAll(r.outDir, 0755)
 	path := filepath.Join(r.outDir, name)
 	os.WriteFile(path, data, 0644)
-	if _, seen := r.violations[f.Sig]; !seen || len(data) > 0 {
-		// keep the most recent (smallest after shrinking) case per signature
-		r.violations[f.Sig] = path
-	}
+	r.violations[f.Sig] = path
 	return true
 }
 
